@@ -113,7 +113,11 @@ class BGPLS(NLRI):
 
     def index(self) -> bytes:
         # Wire format: [family][type(2)][length(2)][payload] - _packed includes header
-        return bytes(Family.index(self)) + self._packed
+        # the route distinguisher of a bgp-ls-vpn route is kept beside _packed (self.route_d):
+        # two routes which differ only by it are two routes
+        route_d = getattr(self, 'route_d', None)
+        distinguisher = bytes(route_d.pack_rd()) if route_d else b''
+        return bytes(Family.index(self)) + distinguisher + self._packed
 
     @classmethod
     def unpack_bgpls_nlri(cls, data: Buffer, rd: 'RouteDistinguisher') -> 'BGPLS':
